@@ -48,6 +48,16 @@ def gen_case(rng, tier, avoid):
         for k in range(nfr):
             gen.frame_block(spec, lfi, rng, used=set() if own_sets else used, max_width=4,
                             set_name='F%d_%d' % (li, k) if own_sets else None, frame_used=fused)
+        if own_sets and rng.random() < 0.4:
+            # sets of one type used in the order A, B, A: one more frame goes into the FIRST frame/channel set and takes the
+            # name of the frame in the second set - two same-named frames of one logical file, told apart by their copy numbers
+            n0 = len(spec.ops)
+            gen.frame_block(spec, lfi, rng, used=set(), max_width=4, set_name='F%d_%d' % (li, 0), frame_used=fused)
+            frames_b = [op for op in spec.ops[:n0] if op.get('op') == 'add' and op['kind'] == 'frame' and op['lf'] == lfi['lf']
+                        and op['kwargs'].get('set_name') == 'F%d_%d' % (li, 1)]
+            for op in spec.ops[n0:]:
+                if op.get('op') == 'add' and op['kind'] == 'frame' and frames_b:
+                    op['name'] = frames_b[0]['name']
         if rng.random() < 0.4:
             spec.no_format(lfi, 'NF', [gen.payload(rng, mrl - 8) for _ in range(rng.choice([1, 2]))])
         genmeta.populate(spec, lfi, rng, n=rng.choice([0, 1, 3]), routes=False, p_attr=0.3,
